@@ -16,10 +16,14 @@ Targets(kind) == CASE kind = "class" -> ClassTargets
 Kinds == {"var", "fun", "class", "field", "method"}
 Renamings == {[kind |-> "all", index |-> 0, to |-> "fresh"]}
              \cup UNION { {[kind |-> k, index |-> i, to |-> t] : i \in 1..MaxNames, t \in Targets(k)} : k \in Kinds }
+\* C02: words that mean something in the TARGET language (reserved words, literals) put at every kind of user-name position:
+\* the program must be rejected or the emitted module must still compile.
+PyWords == {"lambda", "del", "try", "yield", "global", "nonlocal", "assert", "async", "await", "elif", "except", "finally", "None", "True", "False", "case", "exec", "print_", "object"}
+WordRenamings == UNION { {[kind |-> k, index |-> i, to |-> t] : i \in 1..MaxNames, t \in PyWords} : k \in Kinds }
 VARIABLE x
 Init == x = 0
 Next == UNCHANGED x
 \* prefix pairs: the i-th and the j-th name of a kind become  p  and  p_count  (one user name a proper prefix of another)
 PrefixPairs == {[kind |-> k, index |-> i, to |-> "<prefix-pair>", other |-> j] : k \in {"var", "field", "fun"}, i \in 1..MaxNames, j \in 1..MaxNames}
-Emit == PrintT("@@" \o ToJson([renamings |-> {r \in Renamings : r.to \in Targets(r.kind) \/ r.kind = "all"}, prefix_pairs |-> {r \in PrefixPairs : r.index # r.other}]))
+Emit == PrintT("@@" \o ToJson([renamings |-> {r \in Renamings : r.to \in Targets(r.kind) \/ r.kind = "all"}, prefix_pairs |-> {r \in PrefixPairs : r.index # r.other}, word_renamings |-> WordRenamings]))
 =====================================================================================
